@@ -194,10 +194,29 @@ theorem missingRequired_none (names : List String) : ∀ (tags : List String) (t
     · have : t ∈ names := h t (by simp) ht
       simp [this]
 
-theorem fromCtyA_flds (fs : List Fld)
-    (hrt : ∀ f ∈ fs, f.tag ≠ "" → fromCtyP [] f.w.ty f.w.v f.T = .ok f.v) : ∀ (ns : List String),
+theorem firstFailure_none_of_ok {α β} : ∀ (rs : List (Res α)), (∀ r ∈ rs, ∃ a, r = .ok a) →
+    (firstFailure rs : Option (Res β)) = none
+  | [], _ => rfl
+  | r :: rs, h => by
+    obtain ⟨a, rfl⟩ := h r (by simp)
+    simp only [firstFailure, failureOf]
+    exact firstFailure_none_of_ok rs (fun x hx => h x (List.mem_cons_of_mem _ hx))
+
+/-- every attribute decoded: the loop returns the values, whatever the schedule -/
+theorem combSched_map_ok {α} (order names : List String) (xs : List α) :
+    combSched order names (xs.map Res.ok) = .ok xs := by
+  have hall : ∀ r ∈ xs.map Res.ok, ∃ a, r = Res.ok a := by
+    intro r hr; obtain ⟨a, _, rfl⟩ := List.mem_map.mp hr; exact ⟨a, rfl⟩
+  unfold combSched
+  rw [anyUnmodelled_map_ok]
+  simp only [Bool.false_eq_true, if_false]
+  rw [firstFailure_none_of_ok _ (fun r hr => hall r (mem_inOrder hr)), firstFailure_none_of_ok _ hall,
+    okVals_map_ok]
+
+theorem fromCtyA_flds (S : Sched) (fs : List Fld)
+    (hrt : ∀ f ∈ fs, f.tag ≠ "" → fromCtyP S [] f.w.ty f.w.v f.T = .ok f.v) : ∀ (ns : List String),
     (∀ k ∈ ns, k ≠ "" ∧ k ∈ fs.map (·.tag)) →
-    fromCtyA [] ns (tysOf (ns.map fun k => ((findF k fs).map (·.w)).getD default))
+    fromCtyA S [] ns (tysOf (ns.map fun k => ((findF k fs).map (·.w)).getD default))
       (payloads (ns.map fun k => ((findF k fs).map (·.w)).getD default))
       (fs.map (·.tag)) (fs.map (·.T)) =
       ns.map (fun k => Res.ok (((findF k fs).map (·.v)).getD default))
@@ -207,7 +226,7 @@ theorem fromCtyA_flds (fs : List Fld)
     obtain ⟨f, h1, h2, h3⟩ := findF_of_mem hmem
     simp only [List.map_cons, tysOf, payloads, fromCtyA, lookupTag, hk, if_false, lookupKey_map, h1,
       Option.map_some, Option.getD_some, hrt f h3 (h2 ▸ hk)]
-    rw [fromCtyA_flds fs hrt ns (fun k hk => h k (List.mem_cons_of_mem _ hk))]
+    rw [fromCtyA_flds S fs hrt ns (fun k hk => h k (List.mem_cons_of_mem _ hk))]
 
 theorem assemble_flds (names : List String) (gs : List GoVal) : ∀ (sub : List Fld),
     (∀ f ∈ sub, (f.tag = "" → f.v = zeroVal f.T) ∧ (f.tag ≠ "" → lookupKey f.tag names gs = some f.v)) →
@@ -241,13 +260,13 @@ theorem struct_rt (norm : String → String) (fs : List Fld) (hne : tg fs ≠ []
     (hdist : tagsDistinct (fs.map (·.tag)) = true)
     (hzero : ∀ f ∈ fs, f.tag = "" → f.v = zeroVal f.T)
     (hto : ∀ f ∈ fs, f.tag ≠ "" → toCtyG norm true f.v f.t = .ok f.w)
-    (hfrom : ∀ f ∈ fs, f.tag ≠ "" → fromCtyP [] f.w.ty f.w.v f.T = .ok f.v) :
+    (hfrom : ∀ f ∈ fs, f.tag ≠ "" → ∀ S, fromCtyP S [] f.w.ty f.w.v f.T = .ok f.v) :
     let tags := fs.map (·.tag)
     let names := sortNames (taggedNames tags)
     let φ : String → Ty := fun k => (lookupKey k (taggedNames tags) ((tg fs).map (·.t))).getD .dyn
     let ov := objectVal names (names.map fun k => ((findF k fs).map (·.w)).getD default)
     toCtyG norm true (.struct tags (fs.map (·.v))) (.object names (names.map φ) (names.map fun _ => false)) = .ok ov ∧
-    fromCtyP [] ov.ty ov.v (.struct tags (fs.map (·.T))) = .ok (.struct tags (fs.map (·.v))) ∧
+    (∀ S, fromCtyP S [] ov.ty ov.v (.struct tags (fs.map (·.T))) = .ok (.struct tags (fs.map (·.v)))) ∧
     ((∀ f ∈ fs, f.tag ≠ "" → f.w.ty = f.t) → ov.ty = .object names (names.map φ) (names.map fun _ => false)) ∧
     ((∀ f ∈ fs, f.tag ≠ "" → «matches» f.t f.w.ty = true) →
       «matches» (.object names (names.map φ) (names.map fun _ => false)) ov.ty = true) := by
@@ -277,6 +296,7 @@ theorem struct_rt (norm : String → String) (fs : List Fld) (hne : tg fs ≠ []
     intro f hf hne
     simp only [φ, htn, lookupKey_map, findF_tg hne, findF_self hdist hf hne, Option.map_some, Option.getD_some]
   have hdist' : tagsDistinct tags = true := hdist
+  have heff : effTags tags = tags := effTags_of_distinct tags hdist
   have hW : (names.map fun k => Res.ok (((findF k (tg fs)).map (·.w)).getD default)) =
       (names.map fun k => ((findF k fs).map (·.w)).getD default).map Res.ok := by
     rw [List.map_map]
@@ -285,23 +305,24 @@ theorem struct_rt (norm : String → String) (fs : List Fld) (hne : tg fs ≠ []
     simp only [Function.comp, findF_tg (hmem k hk).1]
   refine ⟨?_, ?_, ?_, ?_⟩
   · -- ToCtyValue
-    simp only [toCtyG, hnames, Bool.false_eq_true, if_false, hdist', Bool.not_true]
+    simp only [toCtyG, hnames, Bool.false_eq_true, if_false, heff]
     rw [toCtyF_flds norm names (names.map φ) fs (fun f hf hne => ⟨by
       rw [lookupKey_names φ f.tag names (hmem' f hf hne), hφ f hf hne], hto f hf hne⟩)]
     rw [htn, attrResults_flds (tg fs) φ names hmemT, hW, combAll_map_ok]
   · -- FromCtyValue
+    intro S
     simp only [ov, objectVal]
     unfold fromCtyP
-    simp only [GoTy.base, GoTy.isCval, Bool.false_eq_true, if_false, bne_self_eq_false, hdist', Bool.not_true,
+    simp only [GoTy.base, GoTy.isCval, Bool.false_eq_true, if_false, bne_self_eq_false, heff,
       GoTy.depth, wrapPtr]
     rw [missingRequired_none names tags _ (fun t ht hne => by
       obtain ⟨f, hf, rfl⟩ := List.mem_map.mp ht
       exact hmem' f hf hne)]
     simp only [Bool.false_eq_true, if_false]
-    rw [fromCtyA_flds fs hfrom names hmem]
+    rw [fromCtyA_flds S.next fs (fun f hf hn => hfrom f hf hn S.next) names hmem]
     rw [show (names.map fun k => Res.ok (((findF k fs).map (·.v)).getD default)) =
       (names.map fun k => ((findF k fs).map (·.v)).getD default).map Res.ok by simp [List.map_map]]
-    rw [combAll_map_ok]
+    rw [combSched_map_ok]
     simp only [mapRes]
     rw [assemble_flds names _ fs (fun f hf => ⟨hzero f hf, fun hne => by
       rw [lookupKey_names _ f.tag names (hmem' f hf hne), findF_self hdist hf hne]
